@@ -18,6 +18,7 @@ package ledger
 import (
 	"bytes"
 	"context"
+	"database/sql"
 	"fmt"
 	"os"
 	"path/filepath"
@@ -37,6 +38,7 @@ import (
 	"github.com/algorand/go-algorand/ledger/store/trackerdb"
 	"github.com/algorand/go-algorand/logging"
 	"github.com/algorand/go-algorand/protocol"
+	"github.com/algorand/go-algorand/util/db"
 	"github.com/algorand/msgp/msgp"
 )
 
@@ -97,6 +99,11 @@ func vc16GenHistory(r *vRand, proto vc14Proto, nrounds int, collide int, stats m
 			x.TotalAssets = uint64(int64(x.TotalAssets) + d(old[1], nw[1]))
 		}
 		cur[a] = x
+		if old[0] < 0 && nw[0] >= 0 {
+			b.cre = append(b.cre, vc14Cre{c, true, a})
+		} else if old[0] >= 0 && nw[0] < 0 {
+			b.cre = append(b.cre, vc14Cre{c, false, a})
+		}
 		if nw[0] < 0 && nw[1] < 0 {
 			delete(res, k)
 		} else {
@@ -189,6 +196,27 @@ func vc16GenHistory(r *vRand, proto vc14Proto, nrounds int, collide int, stats m
 				stats["kv_mod"]++
 			}
 		}
+		// a late account that only HOLDS (opts in to) something created by an earlier account: it gets the highest
+		// rowid, so it is the last resource-bearing account of the (last) balances chunk
+		if rnd == 3 {
+			late := vc14Addr(300)
+			var owned []uint64
+			for k, v := range res {
+				if v[0] >= 0 && !touchedR[k] {
+					owned = append(owned, k.cidx)
+				}
+			}
+			sort.Slice(owned, func(i, j int) bool { return owned[i] < owned[j] })
+			c := nextCidx
+			nextCidx++
+			if len(owned) > 0 {
+				c = owned[r.Intn(len(owned))]
+			}
+			cur[late] = ledgercore.AccountData{AccountBaseData: ledgercore.AccountBaseData{MicroAlgos: basics.MicroAlgos{Raw: 3000000}}}
+			setRes(&b, late, c, [2]int64{-1, int64(1 + r.Intn(5))})
+			touched[late] = true
+			stats["late_holder"]++
+		}
 		// boxes of DIFFERENT name lengths whose name ‖ value concatenations coincide (C15 finding):
 		// collide = 1: only ("ab","c") lives; collide = 2: ("ab","c") and ("a","bc") both live
 		if rnd == 1 && collide >= 1 {
@@ -220,9 +248,10 @@ type vc16Dump struct {
 	orp    [][]byte
 	totals ledgercore.AccountTotals
 	root   crypto.Digest
+	cre    [][]interface{} // (cidx ctype #creator): the assetcreators table, by LookupCreator over every index of the history
 }
 
-func vc16DumpDB(t *testing.T, dbs trackerdb.Store, proto config.ConsensusParams, accountsRound basics.Round, mem merkletrie.MemoryConfig) (d vc16Dump) {
+func vc16DumpDB(t *testing.T, dbs trackerdb.Store, proto config.ConsensusParams, accountsRound basics.Round, mem merkletrie.MemoryConfig, dbFile string) (d vc16Dump) {
 	err := dbs.Transaction(func(ctx context.Context, tx trackerdb.TransactionScope) error {
 		it := tx.MakeEncodedAccountsBatchIter()
 		for {
@@ -294,6 +323,28 @@ func vc16DumpDB(t *testing.T, dbs trackerdb.Store, proto config.ConsensusParams,
 		return err
 	})
 	require.NoError(t, err)
+	// the creators table, read through a second connection to the (shared, in-memory) tracker DB: the restored
+	// DB is at schema 6/7 until the ledger is reloaded, the prepared statements of the readers do not fit it
+	pair, err := db.OpenPair(dbFile, true)
+	require.NoError(t, err)
+	err = pair.Rdb.Atomic(func(ctx context.Context, tx *sql.Tx) error {
+		rows, err := tx.Query("SELECT asset, creator, ctype FROM assetcreators ORDER BY asset, ctype")
+		if err != nil {
+			return err
+		}
+		defer rows.Close()
+		for rows.Next() {
+			var asset, ctype uint64
+			var creator []byte
+			if err := rows.Scan(&asset, &creator, &ctype); err != nil {
+				return err
+			}
+			d.cre = append(d.cre, vL(asset, ctype, append([]byte{}, creator...)))
+		}
+		return rows.Err()
+	})
+	require.NoError(t, err)
+	pair.Close()
 	sort.Slice(d.accts, func(i, j int) bool { return bytes.Compare(d.accts[i].Address[:], d.accts[j].Address[:]) < 0 })
 	sort.Slice(d.kvs, func(i, j int) bool { return bytes.Compare(d.kvs[i][0], d.kvs[j][0]) < 0 })
 	return
@@ -326,7 +377,46 @@ func (d *vc16Dump) term() []interface{} {
 		orp = append(orp, x)
 	}
 	t := d.totals
-	return vL(vSym("world"), accts, kvs, oa, orp, protocol.EncodeReflect(&t), d.root[:])
+	cre := vL()
+	for _, x := range d.cre {
+		cre = append(cre, x)
+	}
+	return vL(vSym("world"), accts, kvs, oa, orp, protocol.EncodeReflect(&t), d.root[:], cre)
+}
+
+// every creatable index of a history, ascending, and the creators after the first n rounds (the oracle)
+func vc16Creatables(h *vc14History, n uint64) (cidxs []uint64, cre []interface{}) {
+	seen := map[uint64]bool{}
+	creator := map[uint64]basics.Address{}
+	for i := range h.blocks {
+		for _, m := range h.blocks[i].mods {
+			if m.class == 1 && !seen[m.cidx] {
+				seen[m.cidx] = true
+				cidxs = append(cidxs, m.cidx)
+			}
+		}
+		if uint64(i) < n {
+			for _, c := range h.blocks[i].cre {
+				if c.created {
+					creator[c.cidx] = c.creator
+				} else {
+					delete(creator, c.cidx)
+				}
+			}
+		}
+	}
+	sort.Slice(cidxs, func(i, j int) bool { return cidxs[i] < cidxs[j] })
+	cre = vL()
+	for _, c := range cidxs {
+		if a, ok := creator[c]; ok {
+			ct := uint64(basics.AssetCreatable)
+			if vc14IsApp(c) {
+				ct = uint64(basics.AppCreatable)
+			}
+			cre = append(cre, vL(c, ct, a[:]))
+		}
+	}
+	return
 }
 
 // the oracle's state as a dump (accounts / resources / KVs only)
@@ -498,7 +588,7 @@ func vc16Restore(t *testing.T, secs []vc16Section, label string, blk *bookkeepin
 	if err := accessor.(*catchpointCatchupAccessorImpl).finishBalances(ctx); err != nil {
 		return vc16Outcome{stage: "finish", err: err.Error()}
 	}
-	o.dump = vc16DumpDB(t, l.trackerDBs, config.Consensus[proto.ver], accountsRound, trackerdb.TrieMemoryConfig)
+	o.dump = vc16DumpDB(t, l.trackerDBs, config.Consensus[proto.ver], accountsRound, trackerdb.TrieMemoryConfig, dbName+".tracker.sqlite")
 	return
 }
 
@@ -985,7 +1075,8 @@ func TestVerifC16(t *testing.T) {
 		require.Equal(t, basics.Round(fsRound), w.ml.trackers.getDbRound())
 		_, hasFirst := w.firsts[fsRound]
 		require.True(t, hasFirst, "first stage at %d", fsRound)
-		src := vc16DumpDB(t, w.ml.dbs, params, basics.Round(fsRound), cfg.mem)
+		_, ocre := vc16Creatables(h, fsRound)
+		src := vc16DumpDB(t, w.ml.dbs, params, basics.Round(fsRound), cfg.mem, w.ml.filename)
 		// the writer itself, with a small resource budget
 		maxRes := 2 + r.Intn(3)
 		dataPath := filepath.Join(t.TempDir(), "direct.data")
@@ -1054,7 +1145,7 @@ func TestVerifC16(t *testing.T) {
 			o := vc16Restore(t, secs, f.label, &blk, proto, basics.Round(fsRound), &seq)
 			stats["restore_"+mname+"_"+map[bool]string{true: "accepted", false: "rejected_" + o.stage}[o.stage == ""]]++
 			out.Case(vSym("c16"), vSym(f.kind), vSym(mname), vL(proto.lookback, proto.nx, maxRes, BalancesPerCatchpointFileChunk),
-				vL(srcTerm, vL(vSym("oracle"), oa, ok, protocol.EncodeReflect(&t0), h.roots[fsRound][:]),
+				vL(srcTerm, vL(vSym("oracle"), oa, ok, protocol.EncodeReflect(&t0), h.roots[fsRound][:], ocre),
 					vL(f.round, blkDigest[:], []byte(f.label))),
 				vc16FileTerm(vc16SectionsOf(f.secs)), vc16FileTerm(secs), o.term())
 		}
